@@ -75,7 +75,34 @@ pub fn install_panic_hook() {
             .location()
             .map(|l| format!("{}:{}", l.file(), l.line()))
             .unwrap_or_default();
-        LAST_PANIC.with(|p| *p.borrow_mut() = Some(format!("{} @ {}", msg, loc)));
+        // C06 keys a panic by the innermost calamine frame outside the byte helpers: function and
+        // source text of the line (line tables give inlined frames too)
+        let mut func = String::new();
+        if std::env::var("CVH_PANIC_FRAMES").is_ok() {
+            let bt = std::backtrace::Backtrace::force_capture().to_string();
+            if std::env::var("CVH_BT_DUMP").is_ok() { eprintln!("{}", bt); }
+            let lines: Vec<&str> = bt.lines().collect();
+            for i in 1..lines.len() {
+                let at = match lines[i].trim().strip_prefix("at ") { Some(a) => a, None => continue };
+                // calamine frames: absolute source paths that are neither the toolchain nor a registry crate
+                if at.starts_with("./") || at.contains("/harness/") || at.starts_with("/rustc/") || at.contains("/.cargo/registry/") || at.contains("/csu/") || !at.contains("/src/") {
+                    continue;
+                }
+                let mut it = at.rsplitn(3, ':');
+                let _col = it.next();
+                let line = it.next().and_then(|x| x.parse::<usize>().ok());
+                let file = match it.next() { Some(f) => f, None => continue };
+                if file.ends_with("/utils.rs") {
+                    continue;
+                }
+                let text = line.and_then(|n| std::fs::read_to_string(file).ok().and_then(|src| src.lines().nth(n.saturating_sub(1)).map(|l| l.trim().to_string()))).unwrap_or_default();
+                let name = lines[i - 1].trim().splitn(2, ": ").nth(1).unwrap_or("").split('<').next().unwrap_or("").to_string();
+                let rel = file.rsplit_once("/src/").map(|x| x.1).unwrap_or(file);
+                func = format!("calamine::{}::{} [{}]", rel, name, text);
+                break;
+            }
+        }
+        LAST_PANIC.with(|p| *p.borrow_mut() = Some(if func.is_empty() { format!("{} @ {}", msg, loc) } else { format!("{} @ {} in {}", msg, loc, func) }));
     }));
 }
 
